@@ -4,7 +4,8 @@
      star   ::= atom "*"*                               highest precedence
      atom   ::= symbol | epsilon | "(" union ")"
    pyformlang's own parser (outer-parenthesis stripping + precedence by inserting parentheses) is compared with it
-   on the tree it builds (head / sons) and on languages. *)
+   on the tree it builds (head / sons) and on languages. Proofs/RegexParse.v: the parser reads back every expression
+   from its minimally parenthesised text. *)
 From Coq Require Import List Bool NArith.
 From PFL Require Import Spec.Regex.
 Import ListNotations.
@@ -20,52 +21,70 @@ Fixpoint stars (r : re) (ts : list tok) : re * list tok :=
 Definition starts_atom (ts : list tok) : bool :=
   match ts with TSym _ :: _ | TEps :: _ | TLp :: _ => true | _ => false end.
 
+
+(* rec parses what stands between parentheses *)
+Definition parse_atom (rec : list tok -> option (re * list tok)) (ts : list tok) : option (re * list tok) :=
+  match ts with
+  | TSym a :: rest => Some (RSym a, rest)
+  | TEps :: rest => Some (REps, rest)
+  | TLp :: rest => match rec rest with
+                   | Some (r, TRp :: rest') => Some (r, rest')
+                   | _ => None
+                   end
+  | _ => None
+  end.
+
+Definition parse_star (rec : list tok -> option (re * list tok)) (ts : list tok) : option (re * list tok) :=
+  match parse_atom rec ts with Some (r, rest) => Some (stars r rest) | None => None end.
+
+Fixpoint parse_concat (rec : list tok -> option (re * list tok)) (g : nat) (ts : list tok) : option (re * list tok) :=
+  match g with
+  | O => None
+  | S g' =>
+    match parse_star rec ts with
+    | None => None
+    | Some (r, rest) =>
+      match rest with
+      | TConcat :: rest' => match parse_concat rec g' rest' with Some (r2, rest2) => Some (RCat r r2, rest2) | None => None end
+      | _ => if starts_atom rest
+             then match parse_concat rec g' rest with Some (r2, rest2) => Some (RCat r r2, rest2) | None => None end
+             else Some (r, rest)
+      end
+    end
+  end.
+
+Fixpoint parse_alt (rec : list tok -> option (re * list tok)) (f g : nat) (ts : list tok) : option (re * list tok) :=
+  match g with
+  | O => None
+  | S g' =>
+    match parse_concat rec f ts with
+    | None => None
+    | Some (r, TUnion :: rest') => match parse_alt rec f g' rest' with Some (r2, rest2) => Some (RAlt r r2, rest2) | None => None end
+    | Some (r, rest) => Some (r, rest)
+    end
+  end.
+
 Fixpoint parse_union (fuel : nat) (ts : list tok) : option (re * list tok) :=
   match fuel with
   | O => None
-  | S f =>
-    let parse_atom ts :=
-      match ts with
-      | TSym a :: rest => Some (RSym a, rest)
-      | TEps :: rest => Some (REps, rest)
-      | TLp :: rest => match parse_union f rest with
-                       | Some (r, TRp :: rest') => Some (r, rest')
-                       | _ => None
-                       end
-      | _ => None
-      end in
-    let parse_star ts := match parse_atom ts with Some (r, rest) => Some (stars r rest) | None => None end in
-    let parse_concat :=
-      fix pc (g : nat) (ts : list tok) : option (re * list tok) :=
-        match g with
-        | O => None
-        | S g' =>
-          match parse_star ts with
-          | None => None
-          | Some (r, rest) =>
-            match rest with
-            | TConcat :: rest' => match pc g' rest' with Some (r2, rest2) => Some (RCat r r2, rest2) | None => None end
-            | _ => if starts_atom rest
-                   then match pc g' rest with Some (r2, rest2) => Some (RCat r r2, rest2) | None => None end
-                   else Some (r, rest)
-            end
-          end
-        end in
-    let fix pu (g : nat) (ts : list tok) : option (re * list tok) :=
-        match g with
-        | O => None
-        | S g' =>
-          match parse_concat f ts with
-          | None => None
-          | Some (r, TUnion :: rest') => match pu g' rest' with Some (r2, rest2) => Some (RAlt r r2, rest2) | None => None end
-          | Some (r, rest) => Some (r, rest)
-          end
-        end in
-    pu f ts
+  | S f => parse_alt (parse_union f) f f ts
   end.
 
 Definition parse_regex (ts : list tok) : option re :=
   match ts with
   | [] => Some REmpty
   | _ => match parse_union (S (length ts)) ts with Some (r, []) => Some r | _ => None end
+  end.
+
+(* printer with the fewest parentheses the documented precedences allow (star > concatenation > union, both binary
+   operators grouping to the right): lvl 0 = a union may appear bare, 1 = a concatenation may, 2 = neither;
+   dot = concatenation written "." (otherwise by juxtaposition) *)
+Fixpoint pr (dot : bool) (lvl : nat) (r : re) : list tok :=
+  match r with
+  | REmpty => []
+  | REps => [TEps]
+  | RSym a => [TSym a]
+  | RStar a => pr dot 2 a ++ [TStar]
+  | RCat a b => let s := pr dot 2 a ++ (if dot then [TConcat] else []) ++ pr dot 1 b in if Nat.leb lvl 1 then s else TLp :: s ++ [TRp]
+  | RAlt a b => let s := pr dot 1 a ++ TUnion :: pr dot 0 b in if Nat.eqb lvl 0 then s else TLp :: s ++ [TRp]
   end.
